@@ -12,7 +12,7 @@ RULE = ('programs x sequences of K<=2 (thorough: sampled K=3,4) requests from {p
         'loop-callback slot (same-slot both orders), from listener callbacks and from step functions; every live end configuration gets a '
         'probing kill; distinct by (program, plan); non-trivial when a kill was delivered to a live process')
 ASSUMPTIONS = ['steps complete without external stimulus (asyncio.sleep(0) yields only)', 'quiescence = empty ready queue, no timers']
-REQUIRED = ['kill_after_abort', 'kill_live', 'quiescent_checks', 'kill_phase/unstarted', 'kill_phase/running-step', 'kill_phase/waiting-step', 'kill_phase/paused',
+REQUIRED = ['kill_after_abort', 'kill_recreated', 'kill_live', 'quiescent_checks', 'kill_phase/unstarted', 'kill_phase/running-step', 'kill_phase/waiting-step', 'kill_phase/paused',
             'kill_phase/pausing', 'kill_phase/listener']
 ALPHABET = [['pause', 'p'], ['play'], ['kill', 'k'], ['resume', ['v']], ['cancel_future']]
 KILLS = ('kill', 'cancel_future')
@@ -56,6 +56,11 @@ def gen_cases(tier, seed):
                     if a1[0] in KILLS or a2[0] in KILLS:
                         plist.append([{'at': ['listener', ev1, k1], 'act': a1}, {'at': ['listener', ev2, 1], 'act': a2}])
                         plist.append([{'at': 1, 'act': ['pause', 'p']}, {'at': ['listener', ev1, k1], 'act': a1}, {'at': ['listener', ev2, 1], 'act': a2}])
+        recreated = [p for p in plans.all_placements(n, ALPHABET, 1) if _has_kill(p)]
+        recreated += [p for p in plans.all_placements(n, [['pause', 'p'], ['kill', 'k'], ['cancel_future']], 2) if _has_kill(p)]
+        for i, plan in enumerate(recreated):
+            yield {'name': name, 'program': prog, 'plan': plans.uniq(plan, 'rc%d' % i), 'drain': True, 'probe': True, 'barrage': False, 'listener': True,
+                   'recreate': 'created'}
         # three requests within one step (same slot or neighbouring slots), every combination of pause / play / kill with a kill
         small = [['pause', 'p'], ['play'], ['kill', 'k']]
         for s0 in range(0, n + 1):
@@ -123,12 +128,13 @@ def run_case(case):
                 obs['kill_phase'][ph] = obs['kill_phase'].get(ph, 0) + 1
             r = a['ret'][0] if a['ret'][0] != 'value' else str(a['ret'][1])
             obs['kill_returns'][r] = obs['kill_returns'].get(r, 0) + 1
+    obs['kill_recreated'] = int(bool(case.get('recreate')) and first is not None)
     obs['kill_after_abort'] = int(any(a['kind'] == 'abort_task' for a in rec['acts']) and first is not None)
     if first is not None:
         obs['quiescent_checks'] = sum(1 for q in rec['qpoints'] if q['nacts'] > first)
     if rec['final']:
         obs['final'][rec['final']['state']] = 1
-    res = {'viol': viol, 'obs': obs, 'inconclusive': rec['inconclusive'], 'key': [case['name'], case['plan']],
+    res = {'viol': viol, 'obs': obs, 'inconclusive': rec['inconclusive'], 'key': [case['name'], case['plan'], case.get('recreate')],
            'nontrivial': first is not None}
     res['sample'] = {'program': case['name'], 'plan': case['plan'], 'final_state': rec['final']['state'] if rec['final'] else None,
                      'acts': [[a['kind'], a['via'], a['phase'], a['ret']] for a in rec['acts']], 'kill_futures': rec['futs']}
